@@ -79,6 +79,9 @@ def cases(draw):
                 'dst': draw(st.integers(i + 1, n - 1)) if forward else draw(st.integers(0, n - 1)),
                 'filter': draw(st.sampled_from(['none', 'none', 'none', 'reject', 'pass', 'edit'])),
                 'cond': draw(st.sampled_from([None, None, None, 'tn', 'nt'])),
+                # output events normally skip the change from UNDEF; some do not, so that events
+                # also travel while the circuit is being initialised
+                'nfu': draw(st.integers(0, 9)) < 6,
             })
     # a Repeat cannot repeat an EventCond; its own destination edge is plain
 
@@ -127,8 +130,8 @@ class Model:
         for e in self.blocks[i]['edges']:
             if e['trigger'] != trigger:
                 continue
-            if previous is UNDEF and trigger in ('on_output', 'on_every_output'):
-                continue        # not_from_undef is the first filter of every output event
+            if previous is UNDEF and trigger in ('on_output', 'on_every_output') and e.get('nfu', True):
+                continue        # not_from_undef is the first filter of this output event
             if e['filter'] == 'reject':
                 self.blocked += 1
                 continue
@@ -162,7 +165,10 @@ class Model:
         if kind == 'input':
             self.deliver(i, None, 0, 'put')         # init_from_value -> event('put')
         elif kind == 'counter':
-            self.cur[i] = 0                          # output events are filtered (from UNDEF)
+            # init_from_value is a plain call (not an event): the block is not busy meanwhile
+            self.cur[i] = 0
+            self.send_edges(i, 'on_output', 0, UNDEF)
+            self.send_edges(i, 'on_every_output', 0, UNDEF)
         elif kind == 'relay':
             self.cur[i] = 0
         elif kind == 'fsm':
@@ -172,6 +178,7 @@ class Model:
             self.busy[i] = True
             try:
                 self.cur[i] = 'a'
+                self.send_edges(i, 'on_output', FSM_OUT['a'], UNDEF)
                 self.send_edges(i, 'on_enter_a', FSM_OUT['a'])
             finally:
                 self.busy[i] = False
@@ -327,7 +334,7 @@ def mkevent(blocks, e, output_event):
         etype = edzed.EventCond(None, base)
     else:
         etype = base
-    filters = [edzed.not_from_undef] if output_event else []
+    filters = [edzed.not_from_undef] if output_event and e.get('nfu', True) else []
     if e['filter'] == 'reject':
         filters.append(lambda data: False)
     elif e['filter'] == 'pass':
